@@ -1373,13 +1373,14 @@ def case_strategy(depth):
     text = st.tuples(st.just("text"), st.integers(0, 11), st.integers(0, 1), _txt).map(list)
     key = st.tuples(st.just("key"), st.integers(0, len(KEYS) - 1)).map(list)
     ops = st.lists(st.one_of(click, click, text, text, key), max_size=6)
+    # the history is drawn first: drawn after the (large) tree, Hypothesis leaves it empty in 60% of the examples
     return st.builds(
-        lambda rt, dc, dr, ev, ops: {"tree": rt[1], "mode": rt[0], "dc": dc, "dr": dr, "ev": ev, "ops": ops},
+        lambda ops, rt, dc, dr, ev: {"tree": rt[1], "mode": rt[0], "dc": dc, "dr": dr, "ev": ev, "ops": ops},
+        ops,
         root,
         st.sampled_from([0, 0, 1, 2, 3, 6]),
         st.sampled_from([0, 0, 1, 2, 4]),
         st.integers(0, len(EVENTS) - 1),
-        ops,
     )
 
 
@@ -1441,7 +1442,7 @@ def classify(case):
 
 def shard(ctx):
     depth = ctx.scale(3, 4)
-    ctx.given("tree", case_strategy(depth), ctx.scale(300, 4000), nontrivial=nontrivial, classify=classify)
+    ctx.given("tree", case_strategy(depth), ctx.scale(400, 4000), nontrivial=nontrivial, classify=classify)
     for label, n in sorted(STATS.items()):
         ctx.count("run:" + label, n)
 
